@@ -104,6 +104,10 @@ FAMILIES = {
     # a cost event on the day of a purchase / sale, under every line order (does the day's purchase take part?)
     'events_order_q': dict(cfg=dict(dayset=3, buy=(0, 1, 2), sell=(0, 1), events=(1, 2), maxevents=1, grid=2, maxcells=4),
                            variants='orders', bases=1),
+    # two securities, a cost event of either, every line order (a SELL or an event line of one security before a BUY of
+    # the other on the same day): the event reaches its own security's purchases only
+    'two_events_q': dict(cfg=dict(secs='SecSeqAB', dayset=7, buy=(0, 2), sell=(0, 1), events=(2,), maxevents=1, grid=1, maxcells=4),
+                         variants='orders', bases=1),
     # cost events and splits together
     'events_split_q': dict(cfg=dict(dayset=3, buy=(0, 1, 2), sell=(0, 1), events=(1, 2), maxevents=1, grid=2,
                                     splits=(1,), maxsplits=1, maxcells=4, timings=BOTH), variants='none', bases=1, obs=True),
